@@ -83,12 +83,55 @@ impl AsRef<Expression> for Expression {
     }
 }
 
+impl Expression {
+    /// prints the operations with the builder's own terms: an unbound parameter is
+    /// printed as `{name}` like everywhere else, and a malformed operation list gives `None`
+    fn print(ops: &[Op], symbols: &mut SymbolTable) -> Option<String> {
+        let mut stack: Vec<String> = Vec::new();
+
+        for op in ops {
+            match op {
+                Op::Value(term) => stack.push(term.to_string()),
+                Op::Unary(unary) => {
+                    let value = stack.pop()?;
+                    stack.push(unary.convert(symbols).print(value, symbols));
+                }
+                Op::Binary(binary) => {
+                    let right = stack.pop()?;
+                    let left = stack.pop()?;
+                    stack.push(binary.convert(symbols).print(left, right, symbols));
+                }
+                Op::Closure(params, ops) => {
+                    let body = Self::print(ops, symbols)?;
+                    if params.is_empty() {
+                        stack.push(body);
+                    } else {
+                        let param_group = params
+                            .iter()
+                            .map(|p| format!("${p}"))
+                            .collect::<Vec<_>>()
+                            .join(", ");
+                        stack.push(format!("{param_group} -> {body}"));
+                    }
+                }
+            }
+        }
+
+        if stack.len() == 1 {
+            stack.pop()
+        } else {
+            None
+        }
+    }
+}
+
 impl fmt::Display for Expression {
     fn fmt(&self, f: &mut fmt::Formatter<'_>) -> fmt::Result {
         let mut syms = default_symbol_table();
-        let expr = self.convert(&mut syms);
-        let s = expr.print(&syms).unwrap();
-        write!(f, "{}", s)
+        match Self::print(&self.ops, &mut syms) {
+            Some(s) => write!(f, "{}", s),
+            None => write!(f, "<invalid expression: {:?}>", self.ops),
+        }
     }
 }
 
